@@ -7,6 +7,7 @@ import (
 	"sort"
 	"strings"
 	"testing"
+	"time"
 
 	"github.com/elementsproject/peerswap/swap"
 	"pgregory.net/rapid"
@@ -223,5 +224,123 @@ func TestC09ThirdPartyNoise(t *testing.T) {
 			return
 		}
 		col.Case(desc, true, map[string]interface{}{"type": typ, "chain": chain, "noise": len(plan), "end": refStates}, "end:"+refStates)
+	})
+}
+
+// TestC09ConcurrentSameId: two requests carrying the same swap id reach the node on two channels at the
+// same time (CLN hands every custom message to its own goroutine). The first one is parked at a generated
+// boundary call after the id check, the second one runs, then the first continues. Whatever the order, the
+// id belongs to at most one swap: at most one requester gets an agreement, the other one a cancel, and the
+// record, the active swap and the agreement that went out all name the same peer and the same key.
+func TestC09ConcurrentSameId(t *testing.T) {
+	col := stats.Get("C09.concurrent")
+	rapid.Check(t, func(t *rapid.T) {
+		sim.LogReset()
+		w := sim.NewWorld()
+		defer w.Close()
+		a := w.AddNode("alice")
+		m1 := w.AddNode("mallory")
+		m2 := w.AddNode("trudy")
+		samePeer := rapid.IntRange(0, 3).Draw(t, "samePeer") == 0 // the same peer on two of its channels
+		w.LN.AddChannel("300x3x0", a.Id, m1.Id, 5_000_000_000, 5_000_000_000)
+		second := m2
+		if samePeer {
+			second = m1
+		}
+		w.LN.AddChannel("400x4x0", a.Id, second.Id, 5_000_000_000, 5_000_000_000)
+		if err := a.Boot(); err != nil {
+			t.Fatal(err)
+		}
+		chain := rapid.SampledFrom([]string{"btc", "lbtc"}).Draw(t, "chain")
+		key1 := hex.EncodeToString(sim.KeyFromName("c09-req-1").PubKey().SerializeCompressed())
+		key2 := hex.EncodeToString(sim.KeyFromName("c09-req-2").PubKey().SerializeCompressed())
+		t1 := rapid.SampledFrom([]int{mtSwapInRequest, mtSwapOutRequest}).Draw(t, "type1")
+		t2 := rapid.SampledFrom([]int{mtSwapInRequest, mtSwapOutRequest}).Draw(t, "type2")
+		id := freshId(t)
+		parkAt := rapid.SampledFrom([]string{"ln.CanSpend:enter", "ln.ProbePayment:enter", "ln.ReceivableMsat:enter", "ln.SpendableMsat:enter", "store.UpdateData:enter", "store.UpdateData:exit",
+			"wallet.GetOnchainBalance:enter", "ln.GetPayreq:enter", "msg.Send:enter", "watcher.GetBlockHeight:enter"}).Draw(t, "parkAt")
+		parked := make(chan struct{})
+		w.Locked(func() { w.ParkOn, w.ParkOnNode, w.Parked = parkAt, "alice", parked })
+		p1 := buildMessage(t, t1, id, "300x3x0", chain, key1)
+		p2 := buildMessage(t, t2, id, "400x4x0", chain, key2)
+		r1 := goRun(func() { a.Deliver(m1.Id, t1, p1) })
+		reached := false
+		select {
+		case <-parked:
+			reached = true
+		case <-r1.done:
+		case <-time.After(2 * time.Second):
+		}
+		r2 := goRun(func() { a.Deliver(second.Id, t2, p2) })
+		r2done := r2.wait(300 * time.Millisecond)
+		w.Locked(func() { w.ParkOn = "" })
+		// the second requester may give up at once: its swap is then finished (persisted, no longer active)
+		// when the first handler goes on
+		cancelSecond := rapid.Bool().Draw(t, "cancelSecond")
+		if cancelSecond && r2done && reached && !samePeer && (sentTypeFor(a, id, mtSwapInAgreement) || sentTypeFor(a, id, mtSwapOutAgreement)) {
+			a.Deliver(second.Id, mtCancel, buildMessage(t, mtCancel, id, "", chain, ""))
+		} else {
+			cancelSecond = false
+		}
+		w.Release()
+		if !r1.wait(5*time.Second) || !r2.wait(5*time.Second) {
+			t.Fatalf("VKEY[C18/entry-point-never-returned] same-id requests (parked at %s) never returned", parkAt)
+		}
+		desc := fmt.Sprintf("types=%d,%d park=%s(reached=%v) chain=%s samePeer=%v secondGaveUp=%v", t1, t2, parkAt, reached, chain, samePeer, cancelSecond)
+		// who was admitted: an agreement (swap-in) or a fee-invoice message (swap-out) went out under that id
+		type adm struct {
+			to, key string
+		}
+		var admitted []adm
+		for _, sm := range a.SentBy() {
+			if swapIdOfPayload(sm.Payload) != id || sm.Failed {
+				continue
+			}
+			if sm.Type == mtSwapInAgreement || sm.Type == mtSwapOutAgreement {
+				var x struct {
+					Pubkey string `json:"pubkey"`
+				}
+				_ = json.Unmarshal(sm.Payload, &x)
+				admitted = append(admitted, adm{sm.To, x.Pubkey})
+			}
+		}
+		if len(admitted) > 1 {
+			col.Violation(t, "C09/same-id-admitted-twice", "%s: %d agreements went out under swap id %s: %v\n%s", desc, len(admitted), id[:6], admitted, tail(sim.LogDump(), 25))
+			return
+		}
+		rec := recOf(a, id)
+		if len(admitted) == 1 {
+			if rec == nil || rec.Data == nil {
+				col.Violation(t, "C09/admitted-swap-has-no-record", "%s: an agreement went to %s but the node holds no record of swap %s", desc, admitted[0].to[:8], id[:6])
+				return
+			}
+			if rec.Data.PeerNodeId != admitted[0].to {
+				col.Violation(t, "C09/record-names-other-peer", "%s: the agreement went to %s, the record names %s\n%s", desc, admitted[0].to[:8], rec.Data.PeerNodeId[:8], tail(sim.LogDump(), 25))
+				return
+			}
+			if k := hex.EncodeToString(rec.Data.GetPrivkey().PubKey().SerializeCompressed()); k != admitted[0].key {
+				col.Violation(t, "C09/record-holds-other-key", "%s: the agreement carried key %s, the record holds the key of %s", desc, admitted[0].key[:10], k[:10])
+				return
+			}
+			var live *swap.SwapStateMachine
+			w.Step(a, func() { live, _ = a.Svc.GetActiveSwap(id) })
+			if live != nil && live.Data != nil && live.Data.PeerNodeId != admitted[0].to {
+				col.Violation(t, "C09/active-swap-names-other-peer", "%s: the agreement went to %s, the active swap names %s", desc, admitted[0].to[:8], live.Data.PeerNodeId[:8])
+				return
+			}
+		}
+		// the refused requester hears a cancel under that id (when the two requesters differ)
+		cancels := 0
+		for _, sm := range a.SentBy() {
+			if sm.Type == mtCancel && swapIdOfPayload(sm.Payload) == id {
+				cancels++
+			}
+		}
+		if len(admitted)+cancels < 2 {
+			col.Violation(t, "C09/same-id-request-unanswered", "%s: %d agreement(s) and %d cancel(s) for two requests under id %s\n%s", desc, len(admitted), cancels, id[:6], tail(sim.LogDump(), 25))
+			return
+		}
+		col.Case(desc, reached, map[string]interface{}{"park": parkAt, "reached": reached, "admitted": len(admitted), "cancels": cancels},
+			"park:"+parkAt, fmt.Sprintf("reached:%v", reached), fmt.Sprintf("admitted:%d", len(admitted)), fmt.Sprintf("same-peer:%v", samePeer), fmt.Sprintf("second-gave-up:%v", cancelSecond))
 	})
 }
